@@ -297,3 +297,114 @@ def expand_augassign(root):
 def fold_constants(root):
     return _apply(root, _FoldConstants)
 ALL = ("rename_locals", "flip_comparisons", "invert_if_else", "membership_to_or", "else_after_terminator", "hoist_else", "expand_augassign", "fold_constants")
+
+
+class _ExtractArgument(ast.NodeTransformer):
+    """f(a, g(b))  ->  _x1 = g(b); f(a, _x1)   for the first non-trivial argument of a statement-level call whose
+    callee expression and earlier arguments are free of calls (evaluation order of effects is unchanged)"""
+
+    def __init__(self):
+        self.n = 0
+
+    def _simple(self, e):
+        return isinstance(e, (ast.Name, ast.Constant)) or (isinstance(e, ast.Attribute) and self._simple(e.value))
+
+    def _nocall(self, e):
+        return not any(isinstance(x, (ast.Call, ast.Await, ast.Yield, ast.YieldFrom, ast.NamedExpr)) for x in ast.walk(e))
+
+    def _block(self, stmts):
+        out = []
+        for st in stmts:
+            call = None
+            if isinstance(st, ast.Expr) and isinstance(st.value, ast.Call):
+                call = st.value
+            elif isinstance(st, ast.Assign) and isinstance(st.value, ast.Call) and all(isinstance(t, ast.Name) for t in st.targets):
+                call = st.value
+            elif isinstance(st, ast.Return) and isinstance(st.value, ast.Call):
+                call = st.value
+            done = False
+            if call is not None and self._nocall(call.func) and not any(isinstance(a, ast.Starred) for a in call.args):
+                for i, a in enumerate(call.args):
+                    if self._simple(a):
+                        continue
+                    if not all(self._nocall(b) for b in call.args[:i]):
+                        break
+                    if isinstance(a, (ast.Lambda, ast.GeneratorExp, ast.Yield, ast.YieldFrom, ast.Await, ast.NamedExpr)):
+                        break
+                    self.n += 1
+                    name = "_x%d" % self.n
+                    out.append(ast.copy_location(ast.Assign(targets=[ast.Name(id=name, ctx=ast.Store())], value=a), st))
+                    call.args[i] = ast.copy_location(ast.Name(id=name, ctx=ast.Load()), a)
+                    out.append(st)
+                    done = True
+                    break
+            if not done:
+                out.append(st)
+        return out
+
+    def visit_FunctionDef(self, node):
+        self.generic_visit(node)
+        return node
+
+    def generic_visit(self, node):
+        super().generic_visit(node)
+        if isinstance(node, (ast.Module, ast.ClassDef)):
+            return node
+        for f in ("body", "orelse", "finalbody"):
+            blk = getattr(node, f, None)
+            if isinstance(blk, list) and blk and isinstance(blk[0], ast.stmt) and not isinstance(node, (ast.Module, ast.ClassDef)):
+                setattr(node, f, self._block(blk))
+        return node
+
+
+def extract_arguments(root):
+    return _apply(root, _ExtractArgument)
+
+
+ALL = ALL + ("extract_arguments",)
+
+
+class _KeywordLastArgument(ast.NodeTransformer):
+    """f(a, b) -> f(a, y=b) for calls whose callee name has exactly one signature in the package"""
+
+    def __init__(self, sigs, repo, mod):
+        self.sigs = sigs
+        self.repo = repo
+        self.mod = mod
+
+    def visit_Call(self, node):
+        from engine.refnames import package_callee_name
+        self.generic_visit(node)
+        name = package_callee_name(self.repo, self.mod, node)
+        sig = self.sigs.get(name)
+        if sig is None or node.keywords or not node.args or any(isinstance(a, ast.Starred) for a in node.args) or len(node.args) > len(sig):
+            return node
+        i = len(node.args) - 1
+        node.keywords.append(ast.keyword(arg=sig[i], value=node.args.pop()))
+        return node
+
+
+def keyword_arguments(root):
+    import sys
+    here = os.path.dirname(os.path.dirname(os.path.abspath(__file__)))
+    if here not in sys.path:
+        sys.path.insert(0, here)
+    from engine.index import Repo
+    from engine.refnames import _signatures
+    repo = Repo(root, translate=False)
+    sigs = _signatures(repo)
+    base = os.path.join(root, "mpgameserver")
+    for fn in sorted(os.listdir(base)):
+        if not fn.endswith(".py") or fn[:-3] not in repo.modules:
+            continue
+        p = os.path.join(base, fn)
+        src = open(p, "rb").read().decode().replace("\r\n", "\n")
+        tree = _KeywordLastArgument(sigs, repo, repo.modules[fn[:-3]]).visit(ast.parse(src))
+        ast.fix_missing_locations(tree)
+        out = ast.unparse(tree) + "\n"
+        compile(out, p, "exec")
+        open(p, "w", newline="\n").write(out)
+    return None
+
+
+ALL = ALL + ("keyword_arguments",)
